@@ -11,6 +11,7 @@ from .common import root_of_expr, path_from_param, const_value, floor, call_name
 from .c03 import solver_postconditions, zero, user_derived
 from .solver import scan_solver
 from .. import uscan
+from . import targets
 
 ROW_CATS = ('row-units', 'add-units', 'qstr', 'sum-mix', 'compare-units', 'to-storage', 'add-cell')
 STORAGE_CATS = ('convert-from-unit', 'from-storage', 'storage-label', 'storage-compare')
@@ -18,6 +19,8 @@ STORAGE_CATS = ('convert-from-unit', 'from-storage', 'storage-label', 'storage-c
 
 def run(ctx):
     model = ctx.model
+    from . import unitspec as _us
+    _us.api_verified(ctx, 'C12.R1')
     fi = model.func('Container.create_solution_from')
     ctx.assumptions.append('create_solution_from: the solute is a solid or a liquid (enzymes carry no moles; activity '
                            'numerators are refused with ValueError, which is checked)')
@@ -113,6 +116,14 @@ def run(ctx):
                why='a stock without the solute reaches the solver', key='solute present gate')
         ctx.ob('C12.R4', fi, s.lineno, 'solute and solvent must differ', bool(g2), fact=str(g2[0]) if g2 else 'no gate',
                why='diluting a substance with itself is accepted', key='solute differs gate')
+    column_provenance(ctx, 'C12.R1')
+    # the stock's residual must reach the recipe's results, and the aliquots rely on a correct transfer
+    from .c08 import operands_written_back
+    operands_written_back(ctx, 'C12.R4', only=('solution_from',))
+    tsc = targets.scan(ctx, 'Container._transfer')
+    uscan.report_sinks(ctx, lambda cat: 'C12.R4' if cat in ('convert-from-unit', 'sum-mix', 'add-units', 'to-storage', 'qstr',
+                                                            'storage-label', 'compare-units', 'store-contents',
+                                                            'store-volume', 'from-storage') else None, tsc)
     return {'explanation': 'The 2x2 system of create_solution_from is interpreted with entry-wise units for every '
                            'numerator/denominator pair, every quantity unit, solid and liquid solutes and pure or '
                            'container solvents: the unknowns get their units from the quantity row and must be the mL '
@@ -143,3 +154,96 @@ def _without_enzyme_solute(ctx, sc):
         out.incomplete = str(exc)
     uscan._cache[key] = out
     return out
+
+
+def column_provenance(ctx, rule):
+    """Non-interference between the columns of the 2x2 system: the unknown that is drawn from the stock multiplies
+    coefficients computed from the stock (and the solute, the request), never from the solvent container, and vice
+    versa.  Which unknown belongs to which object is read from where the solved amounts are used."""
+    fi = ctx.model.func('Container.create_solution_from')
+    ff = ctx.flow(fi.qualname)
+    objs = ('source', 'solvent')
+
+    def params(e):
+        return {n.name for n in deep_walk(e) if isinstance(n, Param) and n.name in objs}
+
+    def vec(e, depth=0):
+        """[deps of component 0, deps of component 1] for a 2-vector, a plain set for a scalar."""
+        if depth > 30:
+            return params(e)
+        if isinstance(e, Ref):
+            return vec(e.value, depth + 1)
+        if isinstance(e, Phi):
+            parts = [vec(o, depth + 1) for o in e.options]
+            if parts and all(isinstance(p_, list) for p_ in parts):
+                return [set().union(*[p_[0] for p_ in parts]), set().union(*[p_[1] for p_ in parts])]
+            if any(isinstance(p_, list) for p_ in parts):
+                return None
+            return set().union(*parts) if parts else set()
+        if isinstance(e, ast.Call) and unparse(e.func.orig if hasattr(e.func, 'orig') else e.func).endswith('array') and e.args:
+            lit = e.args[0]
+            lit = lit.value if isinstance(lit, Ref) else lit
+            if isinstance(lit, (ast.List, ast.Tuple)) and len(lit.elts) == 2 and \
+                    not any(isinstance(strip_refs(x), (ast.List, ast.Tuple)) for x in lit.elts):
+                return [params(lit.elts[0]), params(lit.elts[1])]
+            return None
+        if isinstance(e, ast.BinOp):
+            l, r = vec(e.left, depth + 1), vec(e.right, depth + 1)
+            if l is None or r is None:
+                return None
+            if isinstance(l, list) and isinstance(r, list):
+                return [l[0] | r[0], l[1] | r[1]]
+            if isinstance(l, list):
+                return [l[0] | r, l[1] | r]
+            if isinstance(r, list):
+                return [r[0] | l, r[1] | l]
+            return l | r
+        if isinstance(e, ast.UnaryOp):
+            return vec(e.operand, depth + 1)
+        return params(e)
+
+    solves = [(c, s_, b) for c, s_, b in ff.calls if isinstance(c.func, ast.Attribute) and c.func.attr == 'solve']
+    if not solves:
+        ctx.count('column_provenance_rows', 0)
+        return
+    call = solves[0][0]
+    # which object each unknown is drawn from
+    owner = {}
+
+    def unknowns_in(a):
+        return {n.index for n in deep_walk(a) if isinstance(n, Elt) and isinstance(n.index, int) and strip_refs(n.value) is call}
+    for c, s_, b in ff.calls:
+        if is_call_to(c, 'transfer') and len(c.args) >= 3:
+            idx, who = unknowns_in(c.args[2]), params(c.args[0])          # the quantity string names the unknown
+        elif isinstance(c.func, ast.Name) and c.func.id == 'Container':
+            ic = [k.value for k in c.keywords if k.arg == 'initial_contents'] + list(c.args[2:3])
+            idx = set().union(*[unknowns_in(a) for a in ic]) if ic else set()
+            who = set().union(*[{n.name for n in deep_walk(a, follow_refs=False) if isinstance(n, Param) and n.name in objs}
+                                for a in ic]) if ic else set()
+        else:
+            continue
+        if len(idx) == 1 and len(who) == 1:
+            owner.setdefault(next(iter(idx)), set()).update(who)
+    if set(owner) != {0, 1} or any(len(v) != 1 for v in owner.values()) or owner[0] == owner[1]:
+        ctx.count('column_provenance_rows', 0)
+        return
+    own = {k: next(iter(v)) for k, v in owner.items()}
+    mat = strip_refs(call.args[0]) if call.args else None
+    rows = 0
+    for stmt, target, key, value, before, rt in ff.stores:
+        if not (isinstance(rt, ast.Subscript) and isinstance(call.args[0], Ref) and isinstance(rt.value, Ref) and
+                rt.value.defid == call.args[0].defid):
+            continue
+        v = vec(value)
+        if not isinstance(v, list):
+            continue
+        rows += 1
+        for k in (0, 1):
+            foreign = v[k] - {own[k]}
+            ctx.ob(rule, fi, stmt.lineno, f"row `{show(target, 12)}`: the coefficient of the amount drawn from `{own[k]}` is "
+                                          f"computed from `{own[k]}` only", not foreign,
+                   fact=f"column {k} depends on {sorted(v[k]) or ['neither']}",
+                   why=f"a property of `{sorted(foreign)[0] if foreign else ''}` is used where the one of `{own[k]}` belongs "
+                       f"(same unit, other object): the requested concentration is missed",
+                   key=f"column {k} of {show(target, 12)} reads the other object")
+    ctx.count('column_provenance_rows', rows)
